@@ -8,7 +8,7 @@ CONSTANTS
   MaxFail = 1
   MaxDown = 1
   MaxRoute = 1
-  PkFromPrepare = FALSE
+  PkFromPrepare = TRUE
   TakeAll = FALSE
   KsFailureIsNotExist = FALSE
   DefectNoConnCached = FALSE
